@@ -4,7 +4,7 @@ import json, os
 ROOT = os.path.dirname(os.path.dirname(os.path.abspath(__file__)))
 NOTE = ("exhaustive part: bounded design model (constants in evidence.design_runs); conformance part: sampled behaviours "
         "(seeded random / TLC-generated scenarios, bounded sizes); TLC 1.8, the recorder's projection and betfairlightweight are trusted")
-TECH = "explicit TLA+ specification; TLC exhaustive design check + TLC trace validation of traces recorded from the real code"
+TECH = "explicit TLA+ specification; TLC exhaustive design check + TLC trace validation of traces recorded from the real code (simulation stack / live stack against an exchange double)"
 CHECKS = {
  "C01": "The risk gate is a TLA+ state machine (MC_Gate) model checked under acknowledgement discipline: accepted orders are within the limits counted in full and the brute-force worst-case loss stays within the per-selection limit (and TLC exhibits the breach caused by the implementation's REPLACE handling). On real runs TLC recomputes the brute-force worst case (Exposure.tla) of position + order at every accepted PLACE/REPLACE and the worst-case loss per selection at the end of every update.",
  "C02": "The request path is a TLA+ specification (Transaction.tla) model checked for exactly-once delivery, kind, per-call limit, one version per package, request order and nothing pending after exit; packages captured from real Transaction objects (three client kinds, true limits, up to 700 requests) must equal Transaction!Expected, and on simulation runs with the real controls every refused request's before/after snapshot is judged by TLC.",
@@ -21,6 +21,8 @@ CHECKS = {
  "C19": "Reference construction / parsing is specified in OrderRefs.tla and model checked (round trip for valid separators, breakage for other lengths); references of real orders for adversarial strategy names and every separator are judged by TLC (length, characters, construction, round trip through process_current_orders of a second instance), uniqueness over >40k ids from tight loops / threads / simulated clock.",
  "C20": "Closure bookkeeping (Closure.tla: repeated CLOSED books, re-open, first-seen-closed, removal after an hour in live) is model checked; every closing update of real simulation runs is judged by the same formulas (callbacks once per closing update and receiving strategy, cleared events, flags, released state).",
  "C10": "Runner-context accounting recounted from the orders by TLA+ formulas at the end of every update (design: every reachable state; real code: every recorded update); limits checked at every accepted placement.",
+ "C11": "Live reconciliation and adoption: a compact TLA+ model of one order's live life (MC_LiveRun: pool with retries, exchange bet, snapshots processed late / twice / stale, faults) is model checked for convergence at quiescence; the real Flumine + BetfairExecution are driven against an exchange double along random schedules incl. a snapshot processed between request and response and restarts into a new instance; TLC judges convergence at every quiescent point and adoption at every restart (LiveTrace.tla).",
+ "C12": "Fault enumeration: every assignment of report outcomes to packages of 1..3 orders of each kind, permuted / missing cancel reports, API errors on attempts 1..4, orders completing between request and response, replayed on the real BetfairExecution (exchange double) and, for the simulated execution, random packages through the real SimulatedExecution; TLC judges none-stranded / report-to-owner / exact counts / bounded retries on every handler step.",
  "C13": "Isolation: TLC proves on the matching specification that a strategy's fills are independent of another strategy's orders when isolation is on (and finds a difference when it is off); ledgers of run(A), run(A+B), run(B+A) through the real stack are compared by TLC. Containment: exceptions injected into every callback kind; deliveries, step order and the lifecycle/accounting/blotter formulas are judged by TLC on the recorded runs.",
  "C14": "The listener filter and the event-group merge loop are a TLA+ specification (EventMerge.tla) model checked for sortedness / per-market order / exactly-once; its prediction must equal the delivered sequence of every real run; ledgers of runs in fresh processes with different hash seeds and clock offsets must be identical; the real clock must be restored, also after an aborted run.",
  "C15": "Blotter membership / live-list formulas checked by TLC on the design model and on traces of the real code.",
@@ -41,6 +43,7 @@ m = {
            "source_commits": [], "add_only": True},
  "engines": [
   {"name": "tlc-design", "path": "harness/tlc.py", "serves_properties": sorted(CHECKS), "kind_free_text": "TLC exhaustive model checking of the TLA+ design models (spec/MC_*.tla) incl. non-vacuity witnesses"},
+  {"name": "live-trace-validate", "path": "spec/LiveTrace.tla", "serves_properties": ["C03", "C10", "C11", "C12", "C15", "C20"], "kind_free_text": "traces of the real Flumine / BetfairExecution against the exchange double (harness/livedrv.py) validated by TLC"},
   {"name": "trace-validate", "path": "spec/SimTrace.tla", "serves_properties": sorted(CHECKS), "kind_free_text": "traces recorded from the real code validated by TLC against the specification's transition function (conformance) and the property formulas (verdict)"}],
  "checks": [chk(p, CHECKS[p]) for p in sorted(CHECKS)],
  "not_applicable": [{"property_id": p, "reason": NA_REASON} for p in ALL if p not in CHECKS],
